@@ -402,6 +402,49 @@ def directed_snapshot(ctx, rng, grow=2):
     return c, v, note
 
 
+def directed_overlap(ctx, rng, kind="add"):
+    """A re-sent batch that OVERLAPS the follower's log (entries it already stores, a membership command among them)
+    and ends with a new entry — what a leader sends after a stale rejection hint: the kept entries stay effective."""
+    c = Cluster(ctx, rng, 4 if kind == "rem" else 3)
+    sim = c.sim
+    L = sim.elect()
+    sim.run(3)
+    if L is None:
+        return c, [], "no leader"
+    F = [i for i in sim.voters if i != L][0]
+    node = "e" if kind == "add" else [i for i in sim.voters if i not in (L, F)][0]
+    sim.submit(L, "x1")
+    sim.run(3)
+    c.request(L, kind, node)
+    for _ in range(8):
+        sim.run(1)
+        c.check("%s %s" % (kind, node))
+    sim.submit(L, "x2")
+    sim.run(4)
+    c.check("x2")
+    held = sim.log_of(F)
+    if not any(cmd[:1] == b"\x02" for (_, _, cmd) in held):
+        return c, c.viols, "membership entry did not reach the follower"
+    # the leader appends one more entry; its message to F is replaced by the overlapping re-send of 2..end
+    sim.submit(L, "x3")
+    sim.tick(L, 0.0625)
+    sim.tick(L, 0.125)
+    sim.chan[(L, F)].clear()
+    full = sim.log_of(L)
+    o = sim.objs[L]
+    msg = {"type": "append_entries", "term": o.raftCurrentTerm, "commit_index": o.raftCommitIndex,
+           "entries": [(cmd, idx, term) for (idx, term, cmd) in full[1:]], "prevLogIdx": full[0][0], "prevLogTerm": full[0][1]}
+    sim.inject(L, F, msg)
+    c.check("overlapping re-send of %d entries (%d already stored)" % (len(full) - 1, len(held) - 1))
+    c.cov["overlap-resend"] += 1
+    sim.run(6)
+    c.check("after the re-send")
+    v = c.viols + monitors.sm_safety(sim)
+    for e in sim.errors:
+        v.append({"signature": "exception-escaped:%s" % e[1], "what": "node %s: %s %s" % (e[0], e[1], e[2][:100])})
+    return c, v, None
+
+
 def remove_self_check(ctx):
     """M4: admin path `_removeNodeFromCluster([own address])`"""
     from harness.sim import load_pysyncobj
@@ -435,6 +478,13 @@ def run(ctx):
             for x in v:
                 x.setdefault("replay", {"directed": "snapshot", "grow": g, "seed": ctx.seed, "trace": c.sim.trace[-40:]})
             viols += v
+    for kind in ("add", "rem"):
+        c, v, note = directed_overlap(ctx, rng, kind)
+        n += 1
+        cov.update(c.cov)
+        for x in v:
+            x.setdefault("replay", {"directed": "overlap", "kind": kind, "seed": ctx.seed, "trace": c.sim.trace[-30:]})
+        viols += v
     for k in range(runs):
         if time.time() > end or [x for x in viols if x["signature"] != SIG_D6]:
             break
@@ -458,7 +508,7 @@ def run(ctx):
            "samples": [sample], "disagreements": [], "violations": out[:4], "wall_s": round(time.time() - t0, 2)}
     need = ["request:add", "request:rem", "callback:6", "callback:0", "back-to-back", "isolate-leader", "start-node",
             "isolate-follower", "compacted-log", "fold-base:committed-prefix", "agreement:compared",
-            "caught-up-by-snapshot"]
+            "caught-up-by-snapshot", "overlap-resend"]
     missing = [k for k in need if cov[k] == 0]
     if missing and not out:
         res["inconclusive"] = "coverage floor missed: " + ", ".join(missing)
